@@ -97,7 +97,8 @@ func (s *SecretScanner) scanTable(dbName string, table *TableDump) []SecretFindi
 	var findings []SecretFinding
 
 	for rowIdx, row := range table.Rows {
-		for colName, value := range row {
+		for _, colName := range rowKeys(table.Columns, row) {
+			value := row[colName]
 			strVal := fmt.Sprintf("%v", value)
 			if len(strVal) < 8 {
 				continue // Too short to be a secret
